@@ -73,6 +73,8 @@ class Where:
 
 
 def g(args, cwd=None, env=None):
+    if args[0] == "init":
+        args = ["init", "--template="] + args[1:]     # no hook samples etc.: far fewer files per world
     p = git(["-c", "core.fsync=none", "-c", "init.defaultBranch=main", "-c", "advice.detachedHead=false"] + args, cwd=cwd, env=env, input=b"")
     if p.returncode != 0:
         raise ToolError("git %s failed: %s" % (" ".join(args), p.stderr.decode("utf-8", "replace")[-300:]))
@@ -294,7 +296,7 @@ def classify(q, o, r=None):
     if got[:1] == ["!"]:
         return ["reported-git-dir-does-not-exist"]
     for name in ("ceiling_directory_examined", "unusable_gitfile_skipped", "ceiling_and_gitfile", "dotgit_start_skips_level", "lexical_start"):
-        if got == q["bugs"][name]:
+        if got == q["bugs"][name] and got != q["gitdir"]:
             return [name]
     return ["other"]
 
@@ -532,7 +534,7 @@ def run_random(ctx, binary, wh, tmpl, nworlds, nq):
         for i in r2:
             k = own2[i]
             wi, q, hc = flat[k]
-            cl = expl.get(i, ["other"]) if "panic" not in obs[k] else ["panic"]
+            cl = ["panic"] if "panic" in obs[k] else ["reported-git-dir-does-not-exist"] if obs[k]["gitdir"][:1] == ["!"] else expl.get(i, ["other"])
             rec = {"kind": "random", "classes": cl, "case": {"recipe": recipes[wi], "query": q},
                    "shown": {a: (b.replace(worlds[wi], "W") if isinstance(b, str) else b) for a, b in hc.items()},
                    "observed": obs[k], "git": gits[k]}
@@ -551,7 +553,7 @@ def run(ctx):
     wh = Where(ctx)
     tmpl = make_template(ctx)
     nw, nq = run_gen(ctx, binary, wh, tmpl)
-    rw, rq = run_random(ctx, binary, wh, tmpl, 24 if not ctx.thorough else 300, 12 if not ctx.thorough else 20)
+    rw, rq = run_random(ctx, binary, wh, tmpl, 16 if not ctx.thorough else 300, 12 if not ctx.thorough else 20)
     ctx.cov["exhaustive"] = True
     ctx.cov["rule"] = ("A: %d worlds (kind at p x kind at q over the %s kind alphabet) x every start directory x spellings x ceiling lists = %d "
                        "queries, exhaustive for Discover_Gen; B: %d seeded random worlds with %d queries judged by Discover_Trace. "
